@@ -179,7 +179,9 @@ def poke(x):
         old = x.flat[0].copy() if hasattr(x.flat[0], "copy") else x.flat[0]
         if x.dtype.kind == "b":
             x.flat[0] = not x.flat[0]
-        elif x.dtype.kind in "fiu":
+        elif x.dtype.kind in "iu":
+            x.flat[0] = x.flat[0] ^ 1              # (any integer width: flips the lowest bit)
+        elif x.dtype.kind == "f":
             x.flat[0] = x.flat[0] + 12345
         else:
             return None
